@@ -285,8 +285,228 @@ def mk(iop, iargs, kind, **kw):
     return c
 
 
+
+# ------------------------------------------------------------------------------------------------ structured moduli
+# Moduli with extreme structure are generated deterministically on every run (no dependence on the seed): primes
+# p = c 2^s + 1 with s on both sides of every word boundary, residues chosen by their 2-power order (the Tonelli-Shanks
+# exponent 2^(r-m-1) then takes every value around 32 / 64 / 128 / 192), primes next to 2^32 / 2^64 / 2^128 in every class
+# mod 16, prime powers and 2^k with exponents / valuations around the word sizes.
+WORD_EDGES_Q = (31, 32, 33, 34, 63, 64, 65, 66, 67, 127, 128, 129, 192)
+WORD_EDGES_T = WORD_EDGES_Q + (130, 191, 193, 255, 256, 257)
+SHIFT_EDGES = (0, 1, 2, 29, 30, 31, 32, 33, 34, 61, 62, 63, 64, 65, 66, 67, 125, 126, 127, 128, 129, 130, 189, 190, 191, 253, 254, 255)
+NAMED_PRIMES = ((2 ** 64 - 2 ** 32 + 1, "2^64-2^32+1"), (2 ** 251 + 17 * 2 ** 192 + 1, "2^251+17*2^192+1"))
+
+
+def proth_witness(p):
+    """Proth's theorem: p = c 2^s + 1 with c odd, c < 2^s is prime iff a^((p-1)/2) = -1 (mod p) for some a.
+    Returns such an a (a primality PROOF re-done on every run) or None."""
+    s = val(p - 1, 2); c = (p - 1) >> s
+    if s < 1 or c >= (1 << s):
+        return None
+    for a in SMALL_PRIMES:
+        if pow(a, (p - 1) // 2, p) == p - 1:
+            return a
+    return None
+
+
+_PROTH = {}
+
+
+def proth_prime(s):
+    """(c, p): the least odd c with p = c 2^s + 1 prime; found with Miller-Rabin, accepted only with a Proth witness"""
+    if s not in _PROTH:
+        c = 1
+        while True:
+            q = c * (1 << s) + 1
+            if is_prime(q) and proth_witness(q):
+                break
+            c += 2
+        _PROTH[s] = (c, q)
+    return _PROTH[s]
+
+
+def edge_prime(B, cls, up):
+    """the prime = cls (mod 16) closest to 2^B from above / below"""
+    q = (1 << B) - ((1 << B) % 16) + cls
+    if up and q < (1 << B):
+        q += 16
+    if not up and q > (1 << B):
+        q -= 16
+    while not is_prime(q):
+        q += 16 if up else -16
+    return q
+
+
+STRUCT = {"primes": [], "counts": {}}
+
+
+def gen_structured(C, rng, th):
+    n0 = len(C)
+    STRUCT["primes"] = []; STRUCT["counts"] = {}
+
+    def add(grp, iop, iargs, kind, **kw):
+        C.append(mk(iop, iargs, kind, gen=grp, **kw))
+        STRUCT["counts"][grp + ":" + iop] = STRUCT["counts"].get(grp + ":" + iop, 0) + 1
+
+    plist = [(proth_prime(s)[1], "least c*2^%d+1" % s) for s in (WORD_EDGES_T if th else WORD_EDGES_Q)] + list(NAMED_PRIMES)
+    for q, name in plist:
+        s = val(q - 1, 2); c = (q - 1) >> s
+        wit = proth_witness(q)
+        if wit is None:                                   # cannot happen for the table above; never trust an unproved modulus
+            STRUCT["primes"].append({"p": str(q), "name": name, "proved_prime": False}); continue
+        bits = q.bit_length(); big = bits > 72
+        nr = next(x for x in range(2, 500) if pow(x, (q - 1) // 2, q) == q - 1)
+        z = pow(nr, c, q)                                 # generates the 2-Sylow subgroup: order exactly 2^s
+        odd = pow(3, 1 << s, q)                           # an element of odd order (2-part removed)
+        w = lambda j: pow(z, 1 << (s - j), q)             # order exactly 2^j
+        _FC[q] = {q: 1}; _FC[2 * q] = {2: 1, q: 1}; _FC[4 * q] = {2: 2, q: 1}
+        Fq1 = factor(q - 1)
+        STRUCT["primes"].append({"p": str(q), "name": name, "s": s, "c": str(c), "bits": bits, "proved_prime": True, "proth_witness": wit,
+                                 "least_nonresidue": nr})
+        J = sorted({1, 2, 3, 4, s - 2, s - 1} | {s - 1 - l for l in SHIFT_EDGES if 1 <= s - 1 - l <= s - 1})
+        # the extracted model computes on Coq's binary integers (~1 ms per 256-bit modular product): a Tonelli-Shanks trace for an
+        # element of 2-power order 2^j costs about bits^2 (2 bits + j^2) 1e-8 s; traces above 0.1 s are left to the oracle alone
+        heavy = lambda j: bits * bits * (2 * bits + j * j) * 1e-8 > 0.1
+        T = "proth"
+        # ---- square roots: a of 2-power order 2^j: first pass of the Tonelli-Shanks loop has m = j, exponent 2^(s-j-1)
+        for j in J:
+            nm = heavy(j) and not (j == 1 and bits <= 200)
+            add(T, "sqrootmodprime", [w(j), q], "sqrtp", a=w(j), p=q, k=1, nomodel=nm, tag="order 2^%d, shift %d" % (j, s - j - 1))
+            add(T, "sqrootmod", [w(j), q], "sqrtn", a=w(j), n=q, F={q: 1}, nomodel=heavy(j) or bits > 45)
+            a2 = w(j) * odd % q
+            add(T, "sqrootmodprime", [a2 - (q if j % 2 else 0), q], "sqrtp", a=a2 - (q if j % 2 else 0), p=q, k=1, nomodel=heavy(j) or bits > 45)
+        add(T, "sqrootmodprime", [z, q], "sqrtp", a=z, p=q, k=1, nomodel=bits > 135)          # order 2^s: a non-residue
+        for a in (-1, q - 1, 2 * q - 1, (q - 1) // 2, (q + 1) // 2, 2, 3, 4, 9, 25, q - 4, nr, z * z % q, nr * nr):
+            add(T, "sqrootmodprime", [a, q], "sqrtp", a=a, p=q, k=1, nomodel=heavy(s) and not (a == -1 and bits <= 200))
+        for a in (-1, q - 1, 4, nr):
+            add(T, "sqrootmod", [a, q], "sqrtn", a=a, n=q, F={q: 1}, nomodel=big or (a == 4 and heavy(s)))
+        for k in (2, 3):
+            jj = sorted({1, 2, s - 1} | ({s - 65} if s > 65 else set()))
+            for a in [q ** k - 1, -1, 4, nr] + [w(j) for j in jj] + [w(1) + q * 5, (w(2) * q * q) % q ** k, (w(2) * q) % q ** k]:
+                add(T, "sqrootmodprimepower", [a, q, k], "sqrtpk", a=a, p=q, k=k, nomodel=big or (bits > 45 and a not in (q ** k - 1, -1)))
+        # ---- order / primitive roots / lambda / phi on the same moduli
+        mid = bits > 45                                    # model traces of order / sums of squares: all for the <= 45-bit primes, a sample above
+        for j in sorted({1, 2, s // 2, s - 1, s}):
+            add(T, "order", [w(j), q], "order", a=w(j), n=q, nomodel=big or (mid and j > 2))
+            add(T, "isorder", [1 << j, w(j), q], "isorder", g=1 << j, a=w(j), n=q, nomodel=big or (mid and j > 2))
+            add(T, "isorder", [1 << (j - 1), w(j), q], "isorder", g=1 << (j - 1), a=w(j), n=q, nomodel=mid)
+        for a in (q - 1, -1, 2, 3, nr, z, odd, q + 2):
+            add(T, "order", [a, q], "order", a=a, n=q, nomodel=big or (mid and a not in (q - 1, nr)))
+            add(T, "is_prim_root", [a, q], "is_prim_root", a=a, n=q, nomodel=big)
+        add(T, "isorder", [q - 1, nr, q], "isorder", g=q - 1, a=nr, n=q, nomodel=mid)
+        for n in (q, 2 * q):
+            add(T, "prim_root", [n], "prim_root", n=n, nomodel=big)
+            add(T, "prim_root.runs", [n], "prim_root", n=n, nomodel=big)
+            add(T, "lambda", [n], "lambda", n=n)
+            add(T, "lambda_inv", [n], "lambda_inv", n=n)
+            add(T, "phi", [n], "phi", n=n)
+            add(T, "mobius", [n], "mobius", n=n)
+            add(T, "prim_elem", [n], "prim_elem", n=n, nomodel=big)
+        add(T, "lambda", [4 * q], "lambda", n=4 * q)
+        add(T, "phiL.vector", [q, q], "phi", n=q, Lf=[q])
+        add(T, "phiL.list", [4 * q, q, 2], "phi", n=4 * q, Lf=[q, 2])
+        add(T, "prim_root_of_prime", [q], "prim_root_of_prime", n=q, nomodel=big)
+        add(T, "prim_root_of_prime.L", [q] + sorted(Fq1, reverse=True), "prim_root_of_prime", n=q, nomodel=big)
+        if bits <= 72:
+            add(T, "lowest_prim_root", [q], "lowest_prim_root", n=q, nomodel=True)      # the model's loop counter is a unary nat
+        for v in ("probable_prim_root.L", "probable_prim_root.default", "probable_prim_root.eps"):
+            # .eps derives its own Pollard bound L, which the harness cannot replay when the factorisation of p-1 draws random numbers
+            add(T, v, [q] + ([50] if v.endswith(".L") else []), "probable_prim_root", n=q, nomodel=big or v.endswith(".eps"))
+        # ---- two squares
+        add(T, "brillhart", [q], "brillhart", p=q, nomodel=bits > 135)
+        for kk in (q - 1, -1, z, w(2), nr):
+            for v in ("sumofsquares", "sumofsquares.det", "sumofsquares.mc", "sumofsquares.noerh"):
+                add(T, v, [kk, q], "sos", k=kk, p=q, nomodel=big or (mid and not (kk == q - 1 and v.endswith(".det"))))
+        for a in (w(1), w(2), z, nr, -1):
+            add(T, "legendre", [a, q], "legendre", a=a, b=q)
+            add(T, "kronecker", [a, q], "kronecker", a=a, b=q)
+        # ---- p^2, 2p^2 for the single-limb ones (the code factors p^2 by Pollard rho: only feasible up to ~2^40)
+        if bits <= 41 and (th or s in (32, 33)):
+            n = q * q
+            _FC[n] = {q: 2}; _FC[2 * n] = {2: 1, q: 2}
+            add(T, "prim_root", [n], "prim_root", n=n)
+            add(T, "prim_root.runs", [2 * n], "prim_root", n=2 * n)
+            add(T, "sqrootmod", [n - 1, n], "sqrtn", a=n - 1, n=n, F={q: 2})
+            add(T, "sqrootmod", [w(2), 2 * n], "sqrtn", a=w(2), n=2 * n, F={2: 1, q: 2})
+            add(T, "lambda", [2 * n], "lambda", n=2 * n)
+            add(T, "order", [nr, n], "order", a=nr, n=n)
+    # ---- primes next to a word boundary, every class mod 16
+    T = "edge"
+    for B in (32, 64, 128):
+        for cls in (1, 3, 5, 7, 9, 11, 13, 15):
+            for up in (False, True):
+                q = edge_prime(B, cls, up)
+                r = rng.range(2, q - 2)
+                nr = next(x for x in range(2, 500) if pow(x, (q - 1) // 2, q) == q - 1)
+                aa = [q - 1, -1, 2, 4, (q - 1) // 2, r * r % q, nr * r * r % q] if B < 128 else [q - 1, 2, r * r % q]
+                for a in aa:
+                    add(T, "sqrootmodprime", [a, q], "sqrtp", a=a, p=q, k=1, nomodel=B == 128 and not (a == q - 1 and up))
+                add(T, "sqrootmod", [r * r % q, q], "sqrtn", a=r * r % q, n=q, F={q: 1}, nomodel=B == 128)
+                add(T, "sqrootmodprimepower", [r * r, q, 3], "sqrtpk", a=r * r, p=q, k=3, nomodel=B == 128)
+                if cls % 4 == 1:
+                    add(T, "brillhart", [q], "brillhart", p=q, nomodel=B == 128 and not up)
+                    add(T, "sumofsquares.noerh", [nr, q], "sos", k=nr, p=q, nomodel=B == 128)
+                add(T, "sumofsquares.det", [nr * r % q, q], "sos", k=nr * r % q, p=q, nomodel=B == 128)
+    # ---- large exponents: prime powers, 2 p^m, 2^e m
+    T = "bigexp"
+    EXP = (31, 32, 33, 63, 64, 65, 66, 127, 128, 129)
+    for q, es in ((3, EXP), (5, (27, 28, 31, 32, 55, 56, 64, 65)), (7, (22, 23, 33, 45, 46, 64)), (13, (17, 18, 32, 35)), (65537, (2, 4, 8))):
+        for e in (es if th else es[::2] + es[-1:]):
+            n = q ** e
+            _FC[n] = {q: e}; _FC[2 * n] = {2: 1, q: e}
+            nm = n.bit_length() > 140
+            add(T, "prim_root", [n], "prim_root", n=n, nomodel=nm)
+            add(T, "prim_root.runs", [2 * n], "prim_root", n=2 * n, nomodel=nm)
+            for f in ("phi", "mobius", "lambda", "lambda_inv", "prim_elem"):
+                add(T, f, [n if f != "lambda" else 2 * n], f if f != "prim_elem" else "prim_elem", n=n if f != "lambda" else 2 * n, nomodel=nm and f == "prim_elem")
+            add(T, "lambda_inv_primpow", [q, e], "lambda_inv_primpow", p=q, e=e)
+            for a in (2, q + 1, n - 1):
+                add(T, "order", [a, n], "order", a=a, n=n, nomodel=True)
+            add(T, "is_prim_root", [2, 2 * n], "is_prim_root", a=2, n=2 * n, nomodel=True)
+            add(T, "is_prim_root", [q + 2, 2 * n], "is_prim_root", a=q + 2, n=2 * n, nomodel=True)
+            # a = b q^t: t on both sides of the word sizes, even and odd; a = -1 (q = 1 mod 4), unreduced, non-residue
+            nr = next(x for x in range(2, 50) if pow(x, (q - 1) // 2, q) == q - 1)
+            for t in sorted({tt for tt in (0, 2, e - 3, e - 2, e - 1, 30, 32, 62, 63, 64, 65, 66, 126, 128) if 0 <= tt < e}):
+                for b in (4, 7 * 7 + n, nr, n - 1):
+                    add(T, "sqrootmodprimepower", [b * q ** t, q, e], "sqrtpk", a=b * q ** t, p=q, k=e, nomodel=nm)
+            add(T, "sqrootmod", [4 * q ** (2 * (e // 3)), 2 * n], "sqrtn", a=4 * q ** (2 * (e // 3)), n=2 * n, F={2: 1, q: e}, nomodel=nm)
+    for e in ((31, 32, 33, 34, 63, 64, 65, 66, 67, 127, 128, 129, 130, 200) if th else (32, 33, 64, 65, 66, 128, 129)):
+        for m_, Fm in ((1, {}), (3, {3: 1}), (5 * 7, {5: 1, 7: 1}), (3 ** 41, {3: 41})):
+            n = (1 << e) * m_
+            F = dict(Fm); F[2] = e; _FC[n] = F
+            for f in ("phi", "mobius", "lambda", "lambda_inv", "prim_elem") + (("prim_inv",) if have_prim_inv() else ()):
+                add(T, f, [n], f, n=n, nomodel=f in ("prim_elem", "prim_inv") and e > 70)
+            for a in (3, 5, n - 1, (1 << (e - 1)) + 1, 7):
+                add(T, "order", [a, n], "order", a=a, n=n, nomodel=e > 40 or a > 3)
+            add(T, "sqrootmod", [(9 << 64) % n, n], "sqrtn", a=(9 << 64) % n, n=n, F=F, nomodel=e > 70)
+        add(T, "lambda_inv_primpow", [2, e], "lambda_inv_primpow", p=2, e=e)
+        if have_lambda_primpow():
+            add(T, "lambda_primpow", [2, e], "lambda_primpow", p=2, e=e)
+            add(T, "lambda_primpow", [3, e], "lambda_primpow", p=3, e=e)
+        # 2^k: odd squares, a = b 4^h with h around the word sizes, odd valuation, b not 1 mod 8, negative a
+        for kk in (e, 2 * e + 1):
+            r = rng.bits(kk) | 1
+            for h in sorted({hh for hh in (0, 1, 15, 16, 31, 32, 33, 63, 64, 65) if 2 * hh + 4 <= kk}):
+                for b in (r * r, 17, 8 * r + 3, 1 - (1 << kk) + 8 * (r >> 3 << 3)):
+                    add(T, "sqrootmodpoweroftwo", [b << (2 * h), kk], "sqrt2k", a=b << (2 * h), k=kk, nomodel=kk > 140)
+                add(T, "sqrootmodpoweroftwo", [(r * r) << (2 * h + 1), kk], "sqrt2k", a=(r * r) << (2 * h + 1), k=kk, nomodel=kk > 140)
+    STRUCT["total"] = len(C) - n0
+
+
+_HAVE = {}
+
+
+def have_prim_inv():
+    return _HAVE.get("prim_inv", False)
+
+
+def have_lambda_primpow():
+    return _HAVE.get("lambda_primpow", False)
+
+
 def gen_cases(rng, tier, have):
     th = tier == "thorough"
+    _HAVE.update(have)
     C = []
     # ---- phi / mobius / lambda / prim_elem: every n up to N, all call forms
     N = 5000 if th else 1300
@@ -571,6 +791,7 @@ def gen_cases(rng, tier, have):
         for a in {r ** e - 1, r ** e, r ** e + 1}:
             if a >= 0:
                 C.append(mk("root", [a, e], "iroot", a=a, e=e))
+    gen_structured(C, rng, th)
     return C
 
 
@@ -622,7 +843,7 @@ def spec(c, out, small_cache):
         exp = 1 if (math.gcd(c["a"], n) == 1 and order_of(c["a"], n) == phi_f(n)) else 0
         return int(t[0]) == exp, exp, S_NT + "is_prim_root", "n"
     if k == "isorder":
-        o = order_brute(c["a"], c["n"])
+        o = order_of(c["a"], c["n"])
         exp = 1 if (o == c["g"] and o > 0) else 0
         return int(t[0]) == exp, exp, S_NT + "isorder", "n"
     if k == "prim_root":
@@ -730,7 +951,7 @@ NO_MODEL = {"isqrt", "isqrtrem", "iroot"}
 def model_line(c, out):
     """input line of the extracted model for this case (oracle inputs taken from the implementation's output)"""
     k = c["kind"]; t = out.split(";")[0].split()
-    if k in NO_MODEL:
+    if k in NO_MODEL or c.get("nomodel"):
         return None
     if k in ("jacobi", "legendre", "kronecker"):
         return "kronecker %d %d" % (c["a"], c["b"])
@@ -987,11 +1208,16 @@ def main(tier, replay=None):
     mout = None
     idx = [i for i, m in enumerate(mlines) if m is not None]
     if drv:
-        okm, mo, merr = run_parallel(drv, [mlines[i] for i in idx], nproc=8, timeout=tmo)
-        if not okm:
-            chk.broke("model driver failed", merr)
-        else:
-            mout = dict(zip(idx, mo))
+        # a fixed pseudo-random permutation spreads the expensive traces evenly over the processes
+        idx.sort(key=lambda i: (i * 2654435761) % 4294967291)
+        okm, mo, merr = run_parallel(drv, [mlines[i] for i in idx], nproc=8, timeout=tmo, restarts=3)
+        # a time-out of the extracted model (machine load) is an inconclusive stream, recorded, never a violation
+        slow = [j for j, o in enumerate(mo) if o is None or o.startswith("CRASH rc=124")]
+        died = [j for j, o in enumerate(mo) if o is not None and o.startswith("CRASH") and not o.startswith("CRASH rc=124")]
+        chk.cov["model_traces_inconclusive_timeout"] = len(slow)
+        if died:
+            chk.broke("model driver died on %d lines, first `%s`" % (len(died), mlines[idx[died[0]]][:200]), merr[-1500:])
+        mout = {i: o for j, (i, o) in enumerate(zip(idx, mo)) if o is not None and not o.startswith("CRASH")}
     ph["model"] = round(_t.time() - t0, 1); t0 = _t.time()
     # 4. three-way comparison
     cache = {}
